@@ -90,7 +90,9 @@ class Client:
 
         self.__capabilities: dict[str, str] = {}
         self.__respcode_expr = re.compile(rb"(OK|NO|BYE)\s*(.+)?")
-        self.__error_expr = re.compile(rb'(\([\w/-]+\))?\s*(".+")')
+        self.__respcode_data_expr = re.compile(
+            rb'(\((?:[^()"]|"(?:[^"\\]|\\.)*")*\))?\s*(.*)$', re.DOTALL
+        )
         self.__size_expr = re.compile(rb"\{(\d+)\+?\}")
         self.__active_expr = re.compile(rb"ACTIVE", re.IGNORECASE)
 
@@ -177,10 +179,13 @@ class Client:
 
             m = self.__respcode_expr.match(ret)
             if m:
+                code, msg = self.__parse_response_data(
+                    m.group(2), strict=(m.group(1) == b"NO")
+                )
                 if m.group(1) == b"BYE":
                     raise Error("Connection closed by server")
                 if m.group(1) == b"NO":
-                    self.__parse_error(m.group(2))
+                    self.errcode, self.errmsg = code, msg
                 raise Response(m.group(1), m.group(2))
         return ret
 
@@ -320,33 +325,32 @@ class Client:
             )
         return True
 
-    def __parse_error(self, text: bytes):
-        """Parse an error received from the server.
+    def __parse_response_data(
+        self, text: Optional[bytes], strict: bool = True
+    ) -> Tuple[bytes, bytes]:
+        """Parse what follows OK, NO or BYE on a response line.
 
-        if text corresponds to a size indication, we grab the
-        remaining content from the server.
+        That is an optional response code between parenthesis and an
+        optional human readable text, given as a quoted string or as
+        a literal. In the latter case we grab the remaining content
+        from the server, whatever the response is, in order to let
+        the connection in a clean state.
 
-        Otherwise, we try to match an error of the form \(\w+\)?\s*".+"
-
-        On succes, the two public members errcode and errmsg are
-        filled with the parsing results.
-
-        :param text: the response to parse
+        :param text: the end of the response line
+        :param strict: raise an error if the text is not a valid string
+        :return: a tuple (response code, text)
         """
+        m = self.__respcode_data_expr.match(text or b"")
+        code = m.group(1).strip(b"()") if m.group(1) is not None else b""
+        text = m.group(2).strip()
         m = self.__size_expr.match(text)
         if m is not None:
-            self.errcode = b""
-            self.errmsg = self.__read_block(int(m.group(1)) + 2)
-            return
-
-        m = self.__error_expr.match(text)
-        if m is None:
+            return code, self.__read_block(int(m.group(1)) + 2)
+        if len(text) >= 2 and text.startswith(b'"') and text.endswith(b'"'):
+            return code, text[1:-1]
+        if len(text) and strict:
             raise Error("Bad error message")
-        if m.group(1) is not None:
-            self.errcode = m.group(1).strip(b"()")
-        else:
-            self.errcode = b""
-        self.errmsg = m.group(2).strip(b'"')
+        return code, text
 
     def _plain_authentication(
         self, login: bytes, password: bytes, authz_id: bytes = b""
